@@ -41,7 +41,11 @@ def run_real(d, options, removed, not_c, renaming):
     from cvise.utils.error import CViseError, PassOptionError
     opts = {AbstractPass.Option(o) for o in options}
     try:
-        pg = CVise.parse_pass_group_dict(copy.deepcopy(d), opts, {}, ','.join(removed) if removed else None, None, None, not_c, renaming)
+        d_in = copy.deepcopy(d)
+        pg = CVise.parse_pass_group_dict(d_in, opts, {}, ','.join(removed) if removed else None, None, None, not_c, renaming)
+        if d_in != d:
+            # the parser is asked twice for the same dictionary by the command line (listing the groups, then the real parse)
+            return [1, 98] + enc_string('input changed'), ('err', 98, 'parse_pass_group_dict changed the dictionary it was given: ' + str([k for k in d if d_in.get(k) != d[k]]))
     except PassOptionError as e:
         return [1, 4] + enc_string(str(e.option) if hasattr(e, 'option') else str(e)), ('err', 'option', str(e))
     except CViseError as e:
@@ -98,7 +102,7 @@ def reference(d, options, removed, not_c, renaming, table, valid):
 
 def mutate(rnd, d):
     d = copy.deepcopy(d)
-    kind = rnd.choice(['none', 'dropcat', 'nopass', 'badpass', 'badopt-active', 'badopt-filtered', 'badpass-filtered', 'shuffle', 'maxt', 'excl', 'empty-include', 'empty-exclude', 'dup-row', 'multi-include', 'multi-exclude', 'multi-both'])
+    kind = rnd.choice(['none', 'dropcat', 'nopass', 'badpass', 'badopt-active', 'badopt-filtered', 'badpass-filtered', 'shuffle', 'maxt', 'excl', 'empty-include', 'empty-exclude', 'dup-row', 'multi-include', 'multi-exclude', 'multi-both', 'false-flags'])
     cats = [c for c in ('first', 'main', 'last') if d.get(c)]
     if kind == 'dropcat':
         d.pop(rnd.choice(['first', 'main', 'last']), None)
@@ -124,6 +128,11 @@ def mutate(rnd, d):
             e['max-transforms'] = rnd.randint(0, 5)
         elif kind == 'excl':
             e['exclude'] = [rnd.choice(['slow', 'windows'])]
+        elif kind == 'false-flags':
+            for c2 in cats:
+                for e2 in d[c2]:
+                    e2.setdefault('c', False)              # spelled out: not C-specific, not a renaming pass
+                    e2.setdefault('renaming', False)
         elif kind == 'empty-include':
             e['include'] = []          # present but empty: can never intersect the active options
         elif kind == 'empty-exclude':
@@ -157,6 +166,10 @@ def cli_schedule(group_file, platform, slow, not_c, renaming, removed):
         args.append('--renaming')
     if removed:
         args += ['--remove-pass', ','.join(removed)]
+    if group_file.startswith('name:'):
+        # a shipped group selected by name: the command line has by then parsed every shipped file once (to list the groups)
+        i = args.index('--pass-group-file')
+        args[i:i + 2] = ['--pass-group', group_file[5:]]
     r = subprocess.run(args + ['x.c'], capture_output=True, text=True, env=dict(os.environ, PYTHONPATH=repo, VERIF_REPO=repo), timeout=120)
     if r.returncode != 0:
         return None, (r.stdout + r.stderr)[-600:]
@@ -204,6 +217,9 @@ def explore(ctx):
             ctx.violation('wellformed-rejected', f'{name} ({kind}) is well-formed but was rejected: {obs}', rep)
         elif ref[0] == 'ok' and obs[1] != ref[1]:
             ctx.violation('wrong-selection', f'{name} ({kind}) options={options} removed={removed} not_c={not_c} renaming={renaming}: selected {str(obs[1])[:300]} expected {str(ref[1])[:300]}', rep)
+        if obs[0] == 'err' and obs[1] == 98:
+            ctx.violation('parser-mutates-input', f'{name} ({kind}): {obs[2]} - a second parse of the same dictionary sees something else', rep)
+            return
         if obs[0] == 'err' and obs[1] == 99:
             ctx.violation('foreign-error', f'{name} ({kind}): {obs[2]}', rep)
         try:
@@ -240,7 +256,7 @@ def explore(ctx):
             not_c, renaming = (rnd.random() < 0.5, rnd.random() < 0.5) if name in ('all.json', 'opencl-120.json') else (False, True)
             removed = rnd.choice(removes[:4])
             options = (['slow'] if slow else []) + (['windows'] if platform == 'win32' else [])
-            got, err = cli_schedule(f.name, platform, slow, not_c, renaming, removed)
+            got, err = cli_schedule(('name:' + name[:-5]) if name in shipped else f.name, platform, slow, not_c, renaming, removed)
             ref = reference(d, options, removed, not_c, renaming, table, valid)
             ctx.evaluations += 1
             ctx.count(f'command-line:{platform}:slow={slow}')
